@@ -397,49 +397,14 @@ func ExecRun(t *testing.T, prop string, st Stratum, stIdx int, tape *simrt.Tape,
 				}
 				stk := stacks[c.Task.ID]
 				frame := firstLibFrameOf(stk)
-				// Find the root of the wait-for chain: lock holders, and - when the call waits for a channel's state
-				// machine (SendSync) - the state-machine stage that is itself stuck behind a lock.
-				rootOf := func(t *simrt.Task) (*simrt.Task, bool) {
-					seen := map[*simrt.Task]bool{t: true}
-					hs := simrt.HoldersOf(t)
-					var root *simrt.Task
-					for len(hs) > 0 {
-						root = hs[0]
-						if seen[root] {
-							return root, true
-						}
-						seen[root] = true
-						hs = simrt.HoldersOf(root)
-					}
-					return root, false
-				}
-				root, cycle := rootOf(c.Task)
-				if root == nil && strings.Contains(stk, "SendSync") {
-					for _, bt := range s.BlockedTasks() {
-						if bt.WaitsOn == nil {
-							continue
-						}
-						if rt, cyc := rootOf(bt); rt != nil {
-							root, cycle = rt, cyc
-							break
-						}
-					}
-				}
-				victimOf := ""
-				if root != nil {
-					rst := s.StacksOf([]*simrt.Task{root})[root.ID]
-					rf := rootFrame(rst)
-					kind := "lock-held-for-ever-by:"
-					if cycle {
-						kind = "lock-cycle-through:"
-					} else if strings.Contains(rst, "SendSync") {
-						kind = "lock-held-while-waiting-for-state-machine-whose-stage-needs-it:"
-					}
-					victimOf = kind + rf
-					stk += "\n--- root of the wait-for chain: task " + root.ID + " (" + root.Name + ") blocked on " + root.BlockOn() + ":\n" + shortStack(rst)
-				}
+				victimOf, rootStk := stuckRoot(s, c.Task, stk)
+				stk += rootStk
 				if strings.Contains(strings.ToLower(c.Name), "close") {
-					r.Fail("C09", "close-never-returned", frame, fmt.Sprintf("close call %s on %s (task %s) had not returned at quiescence after settle; blocked at %s\n%s", c.Name, c.Node, c.Task.ID, frame, shortStack(stk)))
+					sig := frame
+					if victimOf != "" {
+						sig += "|" + victimOf
+					}
+					r.Fail("C09", "close-never-returned", sig, fmt.Sprintf("close call %s on %s (task %s) had not returned at quiescence after settle; blocked at %s\n%s", c.Name, c.Node, c.Task.ID, frame, shortStack(stk)))
 				}
 				if victimOf != "" {
 					// the root cause is the task that holds the lock for ever; name it, not the victim
@@ -473,14 +438,10 @@ func ExecRun(t *testing.T, prop string, st Stratum, stIdx int, tape *simrt.Tape,
 						where = "relocks-own-lock:" + libChain(stk, 3)
 					}
 				}
-				if strings.Contains(stk, "SendSync") {
-					// the callback waits for a channel's state machine; is a blocked task waiting for a lock this callback holds?
-					for _, bt := range s.BlockedTasks() {
-						for _, h := range simrt.HoldersOf(bt) {
-							if h == cb.Task {
-								where = "holds-lock-needed-by-the-state-machine-stage-it-waits-for:" + rootFrame(stk)
-							}
-						}
+				if !strings.HasPrefix(where, "relocks-own-lock:") {
+					if v, rootStk := stuckRoot(s, cb.Task, stk); v != "" {
+						where = v
+						stk += rootStk
 					}
 				}
 				r.Fail("C20", "callback-never-returned", callClass(cb.Name)+"|"+where,
@@ -499,6 +460,61 @@ func ExecRun(t *testing.T, prop string, st Stratum, stIdx int, tape *simrt.Tape,
 		res.HarnessErr = r.HarnessErr
 	}
 	return res
+}
+
+// stuckRoot finds the root of the wait-for chain of a blocked task: lock holders, and - when the task waits for a
+// channel's state machine (SendSync) - the state-machine stage that is itself stuck behind a lock. It returns a
+// signature part naming the root ("" if the task itself is the root) and the root's stack for the report.
+func stuckRoot(s *simrt.Sim, t *simrt.Task, stk string) (string, string) {
+	rootOf := func(t0 *simrt.Task) (*simrt.Task, bool) {
+		seen := map[*simrt.Task]bool{t0: true}
+		hs := simrt.HoldersOf(t0)
+		var root *simrt.Task
+		for len(hs) > 0 {
+			root = hs[0]
+			if seen[root] {
+				return root, true
+			}
+			seen[root] = true
+			hs = simrt.HoldersOf(root)
+		}
+		return root, false
+	}
+	root, cycle := rootOf(t)
+	if root == nil && strings.Contains(stk, "SendSync") {
+		var cands []*simrt.Task
+		for _, bt := range s.BlockedTasks() {
+			if bt.WaitsOn != nil {
+				cands = append(cands, bt)
+			}
+		}
+		// prefer a blocked stage of a state machine
+		stks := s.StacksOf(cands)
+		sort.SliceStable(cands, func(i, j int) bool {
+			return strings.Contains(stks[cands[i].ID], "go-statemachine") && !strings.Contains(stks[cands[j].ID], "go-statemachine")
+		})
+		for _, bt := range cands {
+			if hs := simrt.HoldersOf(bt); len(hs) == 1 && hs[0] == t {
+				// the stage needs a lock that this very task holds while it waits for the state machine
+				return "holds-lock-needed-by-the-state-machine-stage-it-waits-for:" + rootFrame(stk), "\n--- state-machine stage " + bt.ID + " waits for a lock this task holds:\n" + shortStack(stks[bt.ID])
+			}
+			if rt, cyc := rootOf(bt); rt != nil {
+				root, cycle = rt, cyc
+				break
+			}
+		}
+	}
+	if root == nil || root == t {
+		return "", ""
+	}
+	rst := s.StacksOf([]*simrt.Task{root})[root.ID]
+	kind := "lock-held-for-ever-by:"
+	if cycle {
+		kind = "lock-cycle-through:"
+	} else if strings.Contains(rst, "SendSync") {
+		kind = "lock-held-while-waiting-for-state-machine-whose-stage-needs-it:"
+	}
+	return kind + rootFrame(rst), "\n--- root of the wait-for chain: task " + root.ID + " (" + root.Name + ") blocked on " + root.BlockOn() + ":\n" + shortStack(rst)
 }
 
 // callClass strips run-specific parts (ids) from a call name: "CloseDataTransferChannel#3" -> "CloseDataTransferChannel"
